@@ -410,3 +410,141 @@ Proof.
     apply with_operation_eq in Ew. subst m'. right. exists idx, m. split; [exact En|]. split; [reflexivity|].
     intros j Hj. apply Hf. lia.
 Qed.
+
+(* ==== the single-operation order theorem on the linearisation (Circuit.all_operations) ==== *)
+Definition lin (ms : list moment) : list opd := concat ms.
+Definition seg (ms : list moment) (a b : nat) : list moment := firstn (b - a) (skipn a ms).
+
+Lemma skipn_skipn_o {A} (x y : nat) (l : list A) : skipn x (skipn y l) = skipn (x + y) l.
+Proof.
+  revert l. induction y as [|y IH]; intros l; [rewrite Nat.add_0_r; reflexivity|].
+  destruct l as [|a r]; [rewrite !skipn_nil; reflexivity|]. rewrite Nat.add_succ_r. simpl. apply IH.
+Qed.
+
+Lemma nth_error_skipn_o {A} (l : list A) : forall n i, nth_error (skipn n l) i = nth_error l (n + i).
+Proof.
+  induction l as [|x r IH]; intros n i.
+  - rewrite skipn_nil. destruct i; destruct (n + _)%nat; reflexivity.
+  - destruct n as [|n]; [reflexivity|]. simpl skipn. rewrite IH. reflexivity.
+Qed.
+
+Lemma skipn_nth_cons {A} (l : list A) p m : nth_error l p = Some m -> skipn p l = m :: skipn (S p) l.
+Proof.
+  revert l. induction p as [|p IH]; intros l H; destruct l as [|x r]; try discriminate.
+  - injection H as ->. reflexivity.
+  - simpl. apply IH. exact H.
+Qed.
+
+Lemma firstn_split {A} (l : list A) p k : (p <= k)%nat -> firstn k l = firstn p l ++ firstn (k - p) (skipn p l).
+Proof.
+  revert l k. induction p as [|p IH]; intros l k Hk; [rewrite Nat.sub_0_r; reflexivity|].
+  destruct k as [|k]; [lia|]. destruct l as [|x r]; [simpl; rewrite firstn_nil; reflexivity|]. simpl. f_equal. apply IH. lia.
+Qed.
+
+Lemma skipn_split {A} (l : list A) p k : (p <= k)%nat -> skipn p l = firstn (k - p) (skipn p l) ++ skipn k l.
+Proof.
+  intros Hk. rewrite <- (firstn_skipn (k - p) (skipn p l)) at 1. f_equal. rewrite skipn_skipn_o. f_equal. lia.
+Qed.
+
+Lemma in_firstn_nth {A} (x : A) : forall n l, In x (firstn n l) -> exists i, (i < n)%nat /\ nth_error l i = Some x.
+Proof.
+  induction n as [|n IH]; intros l H; [destruct H|]. destruct l as [|y r]; [destruct H|].
+  destruct H as [->|H]; [exists O; split; [lia|reflexivity]|].
+  destruct (IH r H) as [i [Hi Hn]]. exists (S i). split; [lia|exact Hn].
+Qed.
+
+Lemma seg_members ms a b m : In m (seg ms a b) -> exists j, (a <= j < b)%nat /\ nth_error ms j = Some m.
+Proof.
+  unfold seg. intros Hin. apply in_firstn_nth in Hin as [i [Hi Hn]].
+  rewrite nth_error_skipn_o in Hn. exists (a + i)%nat. split; [lia|exact Hn].
+Qed.
+
+Lemma filter_free_moment m o : blocks m o = false -> filter (fun x => conflicts x o) m = [].
+Proof.
+  intros Hb. induction m as [|x r IH]; [reflexivity|]. simpl.
+  destruct (conflicts x o) eqn:E.
+  - exfalso. assert (blocks (x :: r) o = true) by (apply blocks_spec; exists x; split; [left; reflexivity|exact E]). congruence.
+  - apply IH. destruct (blocks r o) eqn:Er; [|reflexivity]. exfalso. apply blocks_spec in Er as [y [Hy Hc]].
+    assert (blocks (x :: r) o = true) by (apply blocks_spec; exists y; split; [right; exact Hy|exact Hc]). congruence.
+Qed.
+
+Lemma filter_free_seg ms o a b : (forall j, (a <= j < b)%nat -> free_at ms o j) ->
+  filter (fun x => conflicts x o) (lin (seg ms a b)) = [].
+Proof.
+  intros Hf. unfold lin. assert (G : forall l, (forall m, In m l -> blocks m o = false) -> filter (fun x => conflicts x o) (concat l) = []).
+  { induction l as [|m r IH]; intros Hl; [reflexivity|]. simpl. rewrite filter_app, (filter_free_moment m o), IH; [reflexivity| |].
+    - intros m' Hm'. apply Hl. right. exact Hm'.
+    - apply Hl. left. reflexivity. }
+  apply G. intros m Hm. apply seg_members in Hm as [j [Hj Hn]]. destruct (Hf j Hj) as [m' [Hn' Hb]]. congruence.
+Qed.
+
+Lemma lin_insert_at (ms : list moment) k x : (k <= length ms)%nat -> lin (insert_at k x ms) = lin (firstn k ms) ++ x ++ lin (skipn k ms).
+Proof.
+  unfold lin. revert k. induction ms as [|m r IH]; intros k Hk.
+  - destruct k; [|simpl in Hk; lia]. unfold insert_at. simpl. rewrite app_nil_r. reflexivity.
+  - destruct k as [|k]; [reflexivity|]. unfold insert_at; fold (@insert_at moment). cbn [firstn skipn concat].
+    rewrite IH by (simpl in Hk; lia). rewrite <- app_assoc. reflexivity.
+Qed.
+
+Lemma lin_replace_nth (ms : list moment) p m y : nth_error ms p = Some m ->
+  lin (replace_nth p y ms) = lin (firstn p ms) ++ y ++ lin (skipn (S p) ms) /\
+  lin ms = lin (firstn p ms) ++ m ++ lin (skipn (S p) ms).
+Proof.
+  unfold lin. revert p. induction ms as [|x r IH]; intros p Hn; [destruct p; discriminate|].
+  destruct p as [|p].
+  - injection Hn as ->. split; reflexivity.
+  - unfold nth_error in Hn; fold (@nth_error moment) in Hn. destruct (IH p Hn) as [H1 H2].
+    unfold replace_nth; fold (@replace_nth moment). cbn [firstn skipn concat]. split.
+    + rewrite H1. rewrite <- !app_assoc. reflexivity.
+    + rewrite H2 at 1. rewrite <- !app_assoc. reflexivity.
+Qed.
+
+Theorem lands_lin ms ms' o k : (k <= length ms)%nat -> lands ms ms' o k ->
+  exists l1 l2, lin ms = l1 ++ l2 /\ lin ms' = l1 ++ o :: l2 /\
+    filter (fun x => conflicts x o) l1 = filter (fun x => conflicts x o) (lin (firstn k ms)) /\
+    filter (fun x => conflicts x o) l2 = filter (fun x => conflicts x o) (lin (skipn k ms)).
+Proof.
+  intros Hk [->|[p [m [Hn [-> Hfree]]]]].
+  - exists (lin (firstn k ms)), (lin (skipn k ms)). split; [unfold lin; rewrite <- concat_app, firstn_skipn; reflexivity|].
+    split; [rewrite lin_insert_at by exact Hk; reflexivity|]. split; reflexivity.
+  - destruct (lin_replace_nth ms p m (m ++ [o]) Hn) as [H1 H2].
+    assert (Hlt : (p < length ms)%nat) by (apply nth_error_Some; congruence).
+    exists (lin (firstn p ms) ++ m), (lin (skipn (S p) ms)).
+    split; [etransitivity; [exact H2|]; rewrite <- app_assoc; reflexivity|].
+    split; [etransitivity; [exact H1|]; rewrite <- !app_assoc; reflexivity|].
+    assert (Hm : filter (fun x => conflicts x o) m = []).
+    { destruct (Hfree p ltac:(lia)) as [m' [Hn' Hb]]. rewrite Hn in Hn'. injection Hn' as <-. apply filter_free_moment. exact Hb. }
+    destruct (Nat.lt_ge_cases p k) as [Hpk|Hkp].
+    + (* joined an earlier moment: everything between it and the insertion point is conflict-free *)
+      assert (Hmid : filter (fun x => conflicts x o) (lin (seg ms (S p) k)) = []).
+      { apply filter_free_seg. intros j Hj. apply Hfree. lia. }
+      split.
+      * rewrite (firstn_split ms p k) by lia. fold (seg ms p k). unfold seg. rewrite (skipn_nth_cons ms p m Hn).
+        replace (k - p)%nat with (S (k - S p)) by lia. cbn [firstn]. unfold lin in *. cbn [concat].
+        rewrite !concat_app. cbn [concat]. rewrite !filter_app. unfold seg in Hmid. rewrite Hmid, Hm. rewrite !app_nil_r. reflexivity.
+      * rewrite (skipn_split ms (S p) k) by lia. unfold lin in *. rewrite concat_app, filter_app. unfold seg in Hmid. rewrite Hmid. reflexivity.
+    + (* joined a later moment: everything from the insertion point up to it is conflict-free *)
+      assert (Hmid : filter (fun x => conflicts x o) (lin (seg ms k p)) = []).
+      { apply filter_free_seg. intros j Hj. apply Hfree. lia. }
+      split.
+      * rewrite (firstn_split ms k p) by lia. unfold lin in *. rewrite !concat_app, !filter_app. unfold seg in Hmid. rewrite Hmid, Hm.
+        rewrite !app_nil_r. reflexivity.
+      * rewrite (skipn_split ms k p) by lia. rewrite (skipn_nth_cons ms p m Hn). unfold lin in *. rewrite !concat_app. cbn [concat].
+        rewrite !filter_app. unfold seg in Hmid. rewrite Hmid, Hm. reflexivity.
+Qed.
+
+(* the order clauses of the property for one inserted operation, every strategy:
+   existing operations keep their order (lin before = l1 ++ l2, lin after = l1 ++ o :: l2) and, among
+   the operations that conflict with o, exactly those of the moments before the insertion point come
+   before o and exactly those of the moments from the insertion point on come after it *)
+Theorem insert_single_order c i o s : cache c = None ->
+  let k := clamp_index i (length (moms c)) in
+  exists c' z l1 l2, insert c i [IOp o] s = (c', inl z) /\
+    lin (moms c) = l1 ++ l2 /\ lin (moms c') = l1 ++ o :: l2 /\
+    filter (fun x => conflicts x o) l1 = filter (fun x => conflicts x o) (lin (firstn k (moms c))) /\
+    filter (fun x => conflicts x o) l2 = filter (fun x => conflicts x o) (lin (skipn k (moms c))).
+Proof.
+  intros Hc k. destruct (insert_single_lands c i o s Hc) as [c' [z [H Hl]]].
+  destruct (lands_lin (moms c) (moms c') o k (clamp_index_le _ _) Hl) as [l1 [l2 [H1 [H2 [H3 H4]]]]].
+  exists c', z, l1, l2. repeat split; assumption.
+Qed.
